@@ -4496,3 +4496,40 @@ func c15BlockedFrameForEveryBlockedOpen(c *Ctx) {
 	}
 	c.Floor(R, "instantiations of OpenStream that refuse", m, 1)
 }
+
+// C13.11: one QUICSpec value serves many connections (u_quic_spec.go says so, and the re-dial after Version
+// Negotiation reuses it): nothing that belongs to a single connection may be written into it.
+// PopulateFromUQUIC receives the spec's own transport-parameter slice; a store into one of its elements
+// survives the connection. (Suppress/Shuffle rewrite the slice too, but idempotently / with a fresh draw.)
+func c13SpecNotWrittenPerConnection(c *Ctx) {
+	const R = "C13.11"
+	f := c.fn("internal/wire", "TransportParameters", "PopulateFromUQUIC")
+	var prm *ssa.Parameter
+	for _, p := range f.Params {
+		if _, ok := p.Type().Underlying().(*types.Slice); ok {
+			prm = p
+		}
+	}
+	if prm == nil {
+		c.Bad(R, "anchor:PopulateFromUQUIC takes the spec's parameter slice", "-", "no slice parameter")
+		return
+	}
+	c.OK(R, "anchor:PopulateFromUQUIC takes the spec's parameter slice", c.P.Pos(f.Pos()), prm.Name())
+	n := 0
+	eachInstr(f, func(in ssa.Instruction) {
+		st, ok := in.(*ssa.Store)
+		if !ok {
+			return
+		}
+		ia, ok := st.Addr.(*ssa.IndexAddr)
+		if !ok || ia.X != ssa.Value(prm) {
+			return
+		}
+		n++
+		c.Bad(R, fmt.Sprintf("spec-readonly:PopulateFromUQUIC does not write into the spec's transport parameters#%d", n), c.P.InstrPos(in),
+			"a value of this connection is stored into the shared spec: the next connection made from the same spec (second Dial, re-dial after Version Negotiation) finds it there")
+	})
+	if n == 0 {
+		c.OK(R, "spec-readonly:PopulateFromUQUIC does not write into the spec's transport parameters", c.P.Pos(f.Pos()), "no store through the parameter")
+	}
+}
